@@ -11,6 +11,8 @@ def main():
     import vf.props as P
 
     for m in pkgutil.iter_modules(P.__path__):
+        if not (m.name[0] == "c" and m.name[1:].isdigit()):
+            continue
         try:
             mod = importlib.import_module(f"vf.props.{m.name}")
             for attr in ("PROPERTY", "LEVEL", "shards", "run_shard", "replay"):
